@@ -453,12 +453,17 @@ class TaskScenario(ScenarioData):
         if self.currentSlotIdx is None:
             if forward:
                 start_date = self.property.get("start", self.scenarioIdx)
-                if start_date:
+                # Only the task's own start pins it. A start inherited from an enclosing
+                # container is a lower bound and never lets the task ignore its dependencies.
+                start_inherited = bool(start_date) and self.property.inherited("start", self.scenarioIdx)
+                if start_date and not start_inherited:
                     self.currentSlotIdx = self.project.dateToIdx(start_date)
                 else:
                     # ASAP mode, start at project start or after dependencies
                     # Check ALL dependencies (including inherited) to find the earliest start
                     earliest_start = self.project["start"]
+                    if start_inherited and start_date > earliest_start:
+                        earliest_start = start_date
                     for dep in self.getAllDependencies():
                         # dep can be a dict with 'task' key (new format with gap),
                         # or a Task object directly (old format)
@@ -703,7 +708,7 @@ class TaskScenario(ScenarioData):
         if is_milestone:
             # Milestone: set end = start (zero duration)
             if forward:
-                if start_date:
+                if start_date and not self.property.inherited("start", self.scenarioIdx):
                     self.property[("end", self.scenarioIdx)] = start_date
                 else:
                     # No start date - use current slot (set by dependency calculation)
